@@ -1,17 +1,14 @@
-(* C44: property statements -- only `exact` of proved lemmas and Print Assumptions *)
+(* C44: property statements -- conjunctions of the obligations of C44Statements.v, `exact` of proved lemmas,
+   Print Assumptions *)
 From Coq Require Import Reals List.
 From VLib Require Import RealExtra.
 From C44 Require Import C44Spec C44_gen C44Statements C44ProofsArr2.
 
-Theorem C44_tg_arrg_pstrain_meaning : tg_arrg_pstrain_meaning_ok.
-Proof. exact tg_arrg_pstrain_meaning_proof. Qed.
-Print Assumptions C44_tg_arrg_pstrain_meaning.
-
-Theorem C44_tg_arrf_pstrain_meaning : tg_arrf_pstrain_meaning_ok.
-Proof. exact tg_arrf_pstrain_meaning_proof. Qed.
-Print Assumptions C44_tg_arrf_pstrain_meaning.
-
-Theorem C44_tg_arrk_pstrain_index : tg_arrk_pstrain_index_ok.
-Proof. exact tg_arrk_pstrain_index_proof. Qed.
-Print Assumptions C44_tg_arrk_pstrain_index.
+Theorem C44_emitted_rotations_arrays_two_gradients :
+  tg_arrg_pstrain_meaning_ok /\
+  tg_arrf_pstrain_meaning_ok.
+Proof.
+  exact (conj tg_arrg_pstrain_meaning_proof tg_arrf_pstrain_meaning_proof).
+Qed.
+Print Assumptions C44_emitted_rotations_arrays_two_gradients.
 
